@@ -1,4 +1,5 @@
 import Sml.Props.C16
+import Sml.Lemmas.C16Next
 /- Axiom audit for property C16: only propext / Classical.choice / Quot.sound may appear. -/
 #print axioms Sml.C16.exact_fit
 #print axioms Sml.C16.exact_fit_iter
@@ -8,3 +9,9 @@ import Sml.Props.C16
 #print axioms Sml.C16.default_buf_oom
 #print axioms Sml.Dec.pushByte_rel
 #print axioms Sml.Dec.pushAll_rel
+#print axioms Sml.C16.next_frame
+#print axioms Sml.C16.next_frame_len
+#print axioms Sml.C16.next_frame_items
+#print axioms Sml.C16.next_frame_reader
+#print axioms Sml.C16.startFree_rest_of_no_1b
+#print axioms Sml.C16.next_frame_of_no_1b
